@@ -28,7 +28,8 @@ prop('C04',
               'A-PROTO', 'A-COMP', 'A-SIZE (well-formed container: sizes in range, unique paths)'],
      not_decided='that bufio.Scanner, the two io.Pipe readers of multiread and the (de)compressors deliver the same bytes to both producers; ReadSignature positional correspondence (see DESIGN)')
 
-SAFEKEEPER = [('/pwr', '(*safeKeeper).getBlockValidator'), ('/pwr', '(*safeKeeper).validateBlock'), ('/pwr', '(*safeKeeperReader).Read')]
+SAFEKEEPER = [('/pwr', '(*safeKeeper).getBlockValidator'), ('/pwr', '(*safeKeeper).validateBlock'), ('/pwr', '(*safeKeeperReader).Read'),
+              ('/pwr', '(*safeKeeper).GetReader'), ('/pwr', '(*safeKeeperReader).Seek'), ('/wsync', '(*Context).ApplySingleFull')]
 
 prop('C09',
      functions=SAFEKEEPER + BLOCKVALIDATOR + HASHING,
